@@ -22,7 +22,7 @@ LEVEL_NOTE = 'Trusted: itertools.groupby as the definition of maximal runs; mc/r
 TECHNIQUE = 'stateless bounded-exhaustive exploration of the real operator against a maximal-runs reference model'
 
 INNER = [['tap', 'h'], ['to_list'], ['tap', 't']]
-PREDS = ['mod10', 'p_big', 'p_str', 'p_mixed', 'p_falsy', 'p_hash', 'p_prefix']
+PREDS = ['mod10', 'p_big', 'p_str', 'p_mixed', 'p_falsy', 'p_hash', 'p_prefix', 'p_nan']
 
 
 def bounds(tier):
@@ -99,7 +99,17 @@ def cases(unit):
 
 
 def runs(items, pred):
-    return [list(g) for _, g in itertools.groupby(items, key=pred)]
+    """Maximal runs: a new run starts exactly when the predicate value differs (by !=) from that of the previous item.
+    (Written out: itertools.groupby takes identical objects as equal, which `!=` does not do for NaN.)"""
+    out = []
+    prev = None
+    for n, x in enumerate(items):
+        p = pred(x)
+        if n == 0 or p != prev:
+            out.append([])
+        out[-1].append(x)
+        prev = p
+    return out
 
 
 def viol(fam, sym, detail):
